@@ -978,6 +978,50 @@ pub fn world_b_lifecycle(property: &str, scenario: &str, seed: u64, run: u64, th
 }
 
 /// C17: many clients against small limits.
+/// C17 (runs added later): a server that fills up with long-lived idle connections, one arriving
+/// after the other, while a send call of the server fails at about the moment a request is
+/// answered (the first SYN-ACK of a handshake is lost inside the server); 23-45 s later - after
+/// every retransmission chain that began with the first handshakes has run out - more clients
+/// arrive at the full server.
+pub fn world_b_limits_long(property: &str, scenario: &str, seed: u64, run: u64) -> Plan {
+    let mut r = Rng::keyed(&[seed, crate::rng::str_key(property), crate::rng::str_key(scenario), run, 0x1099]);
+    let mut plan = Plan::new(property, scenario, seed, run);
+    plan.fate_seed = Some(key(&[seed, run, 0xfa7e]));
+    let max_active = r.range(1, 3);
+    let max_total = max_active + r.below(3);
+    let n_first = max_active as usize;
+    let n_late = r.range(1, 3) as usize;
+    let topo = topology(&mut plan, &mut r, n_first + n_late, 0, EndpointCfg::default(), max_total, max_active, |_, _| EndpointCfg::default());
+    if let EndpointKind::Server { handshake_errors, .. } = &mut plan.endpoints[0].kind {
+        *handshake_errors = r.chance(0.3);
+    }
+    plan.push(0, 0, Op::Create { ep: 0 });
+    let latency = r.range(500, 30_000);
+    plan.push(0, 2, Op::Link { from: None, to: None, rule: clean_rule(latency) });
+    plan.params.insert("limits_clean_link".into(), 0.0);
+    let horizon = 70_000_000;
+    let period0 = r.range(5_000, 50_000);
+    plan.push(r.below(period0), r.u32() | 1, Op::StepEvery { ep: 0, period_us: period0, until_us: horizon });
+    let mut t = r.range(100_000, 1_000_000);
+    for (i, &c) in topo.clients.iter().enumerate() {
+        let t_create = if i < n_first { t } else { r.range(23_000_000, 45_000_000) };
+        plan.push(t_create, 1, Op::Create { ep: c });
+        plan.params.insert(format!("created_ep{}", c), 1.0);
+        if i < n_first && r.chance(0.8) {
+            // the server's next send call fails: set just before the request arrives
+            plan.push(t_create + latency - r.below(latency.min(400)), 0x8000_0004, Op::SockErr { ep: 0, recv: 0, send: 1 });
+        }
+        let period = r.range(5_000, 50_000);
+        plan.push(t_create + r.below(period), r.u32() | 1, Op::StepEvery { ep: c, period_us: period, until_us: horizon });
+        if i < n_first {
+            t += r.range(300_000, 2_500_000);
+        }
+    }
+    plan.end_us = horizon;
+    plan.sort();
+    plan
+}
+
 pub fn world_b_limits(property: &str, scenario: &str, seed: u64, run: u64, thorough: bool, clean: bool) -> Plan {
     let mut r = Rng::keyed(&[seed, crate::rng::str_key(property), crate::rng::str_key(scenario), run]);
     let mut plan = Plan::new(property, scenario, seed, run);
